@@ -114,6 +114,40 @@ Theorem C05_table_rule_nested_read_refuted :
 Proof. exact table_rule_nested_read_refuted. Qed.
 Print Assumptions C05_table_rule_nested_read_refuted.
 
+(** chain and table rule together, the rule evaluated on the FROM tree by the model ([rules_of]): a deny
+    handler listing a table the statement shows anywhere in its FROM tree rejects it ... *)
+Theorem C05_deny_table_visible_rejected :
+  forall (c : censor) (pre post : list handler) (s : stmt_tables) (hq mq : bool) (ts : list bytes) (hp mp : bool) (t : bytes),
+  Forall (silent true) pre ->
+  In t (visible_tables s) -> in_set ts t = true ->
+  is_denied (handle_query c true (pre ++ HDeny (rules_of s hq mq ts hp mp) :: post)) = true.
+Proof. exact deny_table_visible_rejected. Qed.
+Print Assumptions C05_deny_table_visible_rejected.
+
+(** ... and an allow handler with a `tables:` list in front of denyall does not admit a statement showing a
+    table outside the list *)
+Theorem C05_allow_tables_then_denyall_rejected :
+  forall (c : censor) (pre post : list handler) (s : stmt_tables) (ts : list bytes) (t : bytes),
+  Forall (silent true) pre ->
+  In t (visible_tables s) -> in_set ts t = false ->
+  is_denied (handle_query c true (pre ++ HAllow (rules_of s false false ts false false) :: HDenyAll :: post)) = true.
+Proof. exact allow_tables_then_denyall_rejected. Qed.
+Print Assumptions C05_allow_tables_then_denyall_rejected.
+
+(** `FROM a JOIN (b JOIN c)` and `FROM a JOIN (b, c)`: deny [c] rejects; allow [a; b] + denyall rejects;
+    allow [a; b; c] + denyall admits *)
+Example C05_table_rule_nested_right_join_examples :
+  let a := hb 0x161 in let b := hb 0x162 in let c := hb 0x163 in
+  let s1 := STSelect [TJoin (TAliased a) (TParen [TJoin (TAliased b) (TAliased c)])] in
+  let s2 := STSelect [TJoin (TAliased a) (TParen [TAliased b; TAliased c])] in
+  check_table_names [c] s1 = (true, false) /\ check_table_names [c] s2 = (true, false)
+  /\ check_table_names [a; b] s1 = (true, false) /\ check_table_names [a; b] s2 = (true, false)
+  /\ In c (visible_tables s1) /\ in_set [c] c = true /\ in_set [a; b] c = false
+  /\ handle_query (Censor false false) true [HDeny (rules_of s1 false false [c] false false)] = Denied ByTable
+  /\ handle_query (Censor false false) true [HAllow (rules_of s2 false false [a; b] false false); HDenyAll] = Denied ByDenyAll
+  /\ handle_query (Censor false false) true [HAllow (rules_of s1 false false [a; b; c] false false); HDenyAll] = Allowed.
+Proof. cbn zeta. repeat split; try (vm_compute; reflexivity). vm_compute. tauto. Qed.
+
 (** session level: the stream forwarded to the database is exactly the accepted statements *)
 Theorem C05_forwarded_is_accepted :
   forall (strict : N -> bool) (evs : list event) (st : state),
